@@ -15,12 +15,17 @@ Img(n, ch, pk, g) == [name |-> n, filters |-> ch, pk |-> pk, bits |-> PkBits(pk)
 BmpBits(pk) == CASE pk = "bw" -> 1 [] pk = "gray" -> 8 [] pk = "rgb" -> 24 [] OTHER -> 0
 BytesPerLine(im) == CASE im.pk = "bw" -> (im.w + 7) \div 8 [] im.pk = "gray" -> im.w [] im.pk = "rgb" -> im.w * 3 [] OTHER -> im.w * 4
 DataLen(im) == BytesPerLine(im) * im.h
-Sample(q) == 3 * q + 1                                                   \* the q-th byte (from 0) of the decoded image data
-RowData(im, row) == [q \in 1..BytesPerLine(im) |-> Sample(row * BytesPerLine(im) + q - 1)]
-Blob(im) == [q \in 1..DataLen(im) |-> Sample(q - 1)]
+\* the q-th byte (from 0) of the decoded image data.  Small images: 3q+1 (any displacement is visible).  Larger images:
+\* noise-like bytes (even width: an LZW encoder fills its table and emits a clear-table code in mid-stream; RunLength
+\* literal runs exceed 128) or long runs of equal bytes (odd width: RunLength runs exceed 128).
+Sample(im, q) == IF im.w * im.h <= 25 THEN 3 * q + 1
+                 ELSE IF im.w % 2 = 0 THEN ((q * q + 7 * q + 11) % 65521) % 256
+                 ELSE ((q \div 150) * 37 + 5) % 256
+RowData(im, row) == [q \in 1..BytesPerLine(im) |-> Sample(im, row * BytesPerLine(im) + q - 1)]
+Blob(im) == [q \in 1..DataLen(im) |-> Sample(im, q - 1)]
 
 \* ------------------------------------------------------------------ export_image: the decision tree
-Lossless == {"Flate", "LZW", "A85", "AHx", "RL"}
+Lossless == {"Flate", "LZW", "A85", "AHx", "RL", "FlatePNG"}       \* FlatePNG: FlateDecode with a PNG predictor (DecodeParms)
 LastFilter(im) == IF im.filters = <<>> THEN "none" ELSE im.filters[Len(im.filters)]
 HasJBIG2(im) == \E q \in 1..Len(im.filters) : im.filters[q] = "JBIG2"
 Decide(im, dv) ==
@@ -31,7 +36,7 @@ Decide(im, dv) ==
   ELSE IF im.bits = 1 THEN "bmp"
   ELSE IF im.bits = 8 /\ im.cs = "RGB" THEN "bmp"
   ELSE IF im.bits = 8 /\ im.cs = "G" THEN "bmp"
-  ELSE IF Len(im.filters) = 1 /\ im.filters[1] = "Flate" THEN "bytes"
+  ELSE IF Len(im.filters) = 1 /\ im.filters[1] \in {"Flate", "FlatePNG"} THEN "bytes"
   ELSE "raw"
 Ext(im, d) == CASE d = "jpeg" -> ".jpg" [] d = "jp2" -> ".jp2" [] d = "jbig2" -> ".jb2" [] d = "bmp" -> ".bmp" [] d = "bytes" -> ".jpg"
                 [] d = "raw" -> "." \o ToString(im.bits) \o "." \o ToString(im.w) \o "x" \o ToString(im.h) \o ".img"
@@ -87,9 +92,9 @@ BmpPixel(f, x, yy) ==
 \* what PDF means by the stored samples (DeviceGray / DeviceRGB, default Decode)
 PdfPixel(im, x, yy) ==
   LET base == yy * BytesPerLine(im) IN
-  CASE im.pk = "rgb" -> <<Sample(base + 3 * x), Sample(base + 3 * x + 1), Sample(base + 3 * x + 2)>>
-    [] im.pk = "gray" -> <<Sample(base + x), Sample(base + x), Sample(base + x)>>
-    [] im.pk = "bw" -> LET b == BitOf(Sample(base + (x \div 8)), x % 8) IN <<255 * b, 255 * b, 255 * b>>
+  CASE im.pk = "rgb" -> <<Sample(im, base + 3 * x), Sample(im, base + 3 * x + 1), Sample(im, base + 3 * x + 2)>>
+    [] im.pk = "gray" -> <<Sample(im, base + x), Sample(im, base + x), Sample(im, base + x)>>
+    [] im.pk = "bw" -> LET b == BitOf(Sample(im, base + (x \div 8)), x % 8) IN <<255 * b, 255 * b, 255 * b>>
 
 
 \* _create_unique_image_name: name + ext, then name.0ext, name.1ext, ... - the first that does not exist
